@@ -1,7 +1,7 @@
 (* Proofs/KeywordsBridge.v — the keywords the world model refuses (Model/Mbox.reserved_kw) are exactly
    the ones mbox.unstorable_keywords returns, as regenerated from the source on every run
    (Gen/Keywords.v, which consults the SYSTEM_FLAG_MAP of Gen/Flags.v). *)
-From Asimap Require Import Base.Res Model.Mbox.
+From Asimap Require Import Base.Res Spec.SetSem Model.Mbox Proofs.FlagsP.
 From Asimap Require Gen.Flags Gen.Keywords.
 From Coq Require Import Lia Arith List Bool String Ascii.
 
@@ -36,4 +36,11 @@ Theorem unstorable_keywords_is_reserved flags :
   Gen.Keywords.unstorable_keywords flags = Ok (filter reserved_kw flags).
 Proof.
   unfold Gen.Keywords.unstorable_keywords. f_equal. apply filter_ext. intros f. symmetry. apply reserved_kw_generated.
+Qed.
+
+Theorem storable_keywords_roundtrip f :
+  Gen.Keywords.unstorable_keywords [f] = Ok [] -> seq_to_flag (flag_to_seq f) = f.
+Proof.
+  intros H. rewrite unstorable_keywords_is_reserved in H. cbn [filter] in H.
+  destruct (reserved_kw f) eqn:E; [discriminate H|]. exact (seq_of_flag_roundtrip f E).
 Qed.
